@@ -1,3 +1,120 @@
-(* Canon — see docs/ for the plan of this file. *)
+(* Canon — canonical form of a method tree (C07).
+   A method tree is a compressed trie over the registered patterns with one
+   extra rule, the host/path split: while no '/' has been read on the way down
+   ("host mode"; path-only patterns leave it with their first byte) a key never
+   contains a '/' after its first byte, i.e. the first '/' of every pattern
+   sits at the start of a key.  The price is the only exception to "an inner
+   node that carries no route has at least two children": a '/'-free hostname
+   node in host mode may have the single child that starts with '/'.
+   Seen this way the method root is the hostname node of the empty hostname.
+   Definitions + boolean checker here; uniqueness in Canon2.v. *)
 From FoxBase Require Import Bytes.
-From FoxRoute Require Import Node Lookup Spec Tree.
+From FoxRoute Require Import Node Tree.
+From Coq Require Import Sorting.Sorted.
+Open Scope char_scope.
+
+(* ---------- the route set of a tree ---------- *)
+Definition own (r : option route) : list (bytes * route) :=
+  match r with Some x => [([], x)] | None => [] end.
+Definition prepend (k : bytes) (p : bytes * route) : bytes * route := (k ++ fst p, snd p).
+
+(* (concatenated keys from n downwards, route) for every node below n that carries a route *)
+Fixpoint sufs (n : node) : list (bytes * route) :=
+  match n with Node k r ch => map (prepend k) (own r ++ flat_map sufs ch) end.
+
+(* the same for a method root: its key is the method, not part of the pattern *)
+Definition routes_of (root : node) : list (bytes * route) :=
+  own (nroute root) ++ flat_map sufs (nchildren root).
+
+(* hostSplit of a pattern as NewRoute computes it (fox.go:664): index of the first '/' *)
+Definition host_split (pat : bytes) : nat :=
+  match index_byte pat "/" with Some i => i | None => 0 end.
+
+(* ---------- shape ---------- *)
+Definition has_slash (k : bytes) : bool := existsb (Ascii.eqb "/") k.
+
+(* host = no '/' read so far *)
+Definition key_ok (host : bool) (k : bytes) : bool :=
+  match k with [] => false | _ :: t => negb (host && has_slash t) end.
+Definition next_host (host : bool) (k : bytes) : bool := host && negb (has_slash k).
+
+Definition fb (n : node) : nat := match nkey n with c :: _ => nat_of_ascii c | [] => 0 end.
+Definition fb_lt (a b : node) : Prop := fb a < fb b.
+
+Definition branch_ok (host' : bool) (r : option route) (ch : list node) : bool :=
+  match r with
+  | Some _ => true
+  | None => match ch with
+            | [] => false
+            | [g] => host' && starts_with "/" (nkey g)
+            | _ :: _ :: _ => true
+            end
+  end.
+
+Inductive CanonN : bool -> node -> Prop :=
+| CanonN_intro host k r ch :
+    key_ok host k = true ->
+    StronglySorted fb_lt ch ->
+    Forall (CanonN (next_host host k)) ch ->
+    branch_ok (next_host host k) r ch = true ->
+    CanonN host (Node k r ch).
+
+Definition pats_ok (root : node) : Prop :=
+  forall p r, In (p, r) (routes_of root) -> rpat r = p.
+
+Definition Canonical (root : node) : Prop :=
+  StronglySorted fb_lt (nchildren root) /\
+  Forall (CanonN true) (nchildren root) /\
+  pats_ok root.
+
+(* ---------- boolean checker ---------- *)
+Fixpoint ssortedb (l : list node) : bool :=
+  match l with
+  | [] => true
+  | x :: r => forallb (fun y => Nat.ltb (fb x) (fb y)) r && ssortedb r
+  end.
+
+Fixpoint canonb (host : bool) (n : node) : bool :=
+  match n with Node k r ch =>
+    key_ok host k && ssortedb ch && forallb (canonb (next_host host k)) ch
+    && branch_ok (next_host host k) r ch
+  end.
+
+Definition pats_okb (root : node) : bool :=
+  forallb (fun pr => bytes_eqb (rpat (snd pr)) (fst pr)) (routes_of root).
+
+Definition canonicalb (root : node) : bool :=
+  ssortedb (nchildren root) && forallb (canonb true) (nchildren root) && pats_okb root.
+
+(* ---------- roots / txn ---------- *)
+Definition txn_routes (rs : list node) : list (bytes * (bytes * route)) :=
+  flat_map (fun root => map (fun pr => (nkey root, pr)) (routes_of root)) rs.
+
+Definition CanonRoots (rs : list node) : Prop :=
+  map nkey (firstn 4 rs) = common_verbs /\
+  NoDup (map nkey (skipn 4 rs)) /\
+  Forall (fun root => is_removable (nkey root) = true /\ nchildren root <> []) (skipn 4 rs) /\
+  Forall Canonical rs.
+
+Definition nodupb (l : list bytes) : bool :=
+  (fix go (l : list bytes) : bool :=
+     match l with [] => true | x :: r => negb (existsb (bytes_eqb x) r) && go r end) l.
+
+Definition canon_rootsb (rs : list node) : bool :=
+  list_eqb bytes_eqb (map nkey (firstn 4 rs)) common_verbs &&
+  nodupb (map nkey (skipn 4 rs)) &&
+  forallb (fun root => is_removable (nkey root) && negb (is_nil (nchildren root))) (skipn 4 rs) &&
+  forallb canonicalb rs.
+
+(* ---------- building trees with the model (tests, examples) ---------- *)
+Definition mk_rinfo (pat : bytes) (id : N) : rinfo :=
+  {| ri_route := {| rpat := pat; rid := id |}; ri_pslen := 0; ri_hostsplit := host_split pat |}.
+
+Inductive hist_op := HIns (m pat : bytes) (id : N) | HDel (m pat : bytes).
+
+Definition hist_step (t : txn) (o : hist_op) : txn :=
+  match o with
+  | HIns m p id => match insert t m (mk_rinfo p id) with ROk t' => t' | _ => t end
+  | HDel m p => match remove t m p with DOk t' _ => t' | DNotFound => t end
+  end.
+Definition run_hist (l : list hist_op) : txn := fold_left hist_step l empty_txn.
